@@ -35,6 +35,19 @@ func newBox(h *boxHandler) *msg.Box {
 		NewTicker: time.NewTicker, ForwardSend: func(uint8, []byte, []byte, ...tss.UniversalID) {}, MessageHandler: h}
 }
 
+// boxTicks: boxes built with a hand-driven epoch clock (operation "k" pushes one tick)
+var boxTicks sync.Map // *msg.Box -> chan time.Time
+
+// newTickBox: the garbage collector runs (sweep 1 h on a hand-driven ticker) but nothing can expire legitimately: the expiry is
+// 2^40 epochs. The clock is started by a Send on an unrelated topic before the first tick.
+func newTickBox(h *boxHandler) *msg.Box {
+	tick := make(chan time.Time)
+	b := &msg.Box{Logger: common.Nolog{}, MaxInFlightTopicsBySender: 1000, GCSweep: time.Nanosecond, GCExpire: time.Nanosecond << 40,
+		NewTicker: func(time.Duration) *time.Ticker { return &time.Ticker{C: tick} }, ForwardSend: func(uint8, []byte, []byte, ...tss.UniversalID) {}, MessageHandler: h}
+	boxTicks.Store(b, tick)
+	return b
+}
+
 func topicOf(name byte) []byte {
 	t := []byte(strings.Repeat(string(name), 32))
 	return t
@@ -47,6 +60,7 @@ type c14cfg struct {
 	Threads [][]string // one op list per thread
 	Limit   int
 	Samples int
+	Ticks   bool // hand-driven epoch clock; operation "k" advances it by one epoch
 }
 
 func mkOp(b *msg.Box, d string) func() { return mkOpShift(b, d, 0) }
@@ -66,6 +80,16 @@ func mkOpShift(b *msg.Box, d string, shift byte) func() {
 	case "s":
 		topic := topicOf(f[1][0] + shift)
 		return func() { b.Send(uint8(tss.MsgTypeMPC), topic, []byte("out"), 99) }
+	case "k":
+		return func() {
+			if t, ok := boxTicks.Load(b); ok {
+				select {
+				case t.(chan time.Time) <- time.Time{}:
+					time.Sleep(150 * time.Microsecond) // the clock goroutine's increment lands
+				case <-time.After(2 * time.Second):
+				}
+			}
+		}
 	}
 	panic("bad op " + d)
 }
@@ -80,6 +104,9 @@ func c14oracle(cfg c14cfg, hlog []string) (string, string) {
 	for _, th := range all {
 		for _, d := range th {
 			f := strings.Split(d, ":")
+			if f[0] == "k" {
+				continue
+			}
 			if f[0] == "s" {
 				sent[f[1]] = true
 			} else {
@@ -130,6 +157,10 @@ func runCtl(cfg c14cfg, choose func(step int, n int) int) (choices, enabled []in
 	defer ctlMu.Unlock()
 	h := &boxHandler{}
 	b := newBox(h)
+	if cfg.Ticks {
+		b = newTickBox(h)
+		defer boxTicks.Delete(b)
+	}
 	msg.SetVerifHook(func(string) {})
 	for _, d := range cfg.Pre {
 		mkOp(b, d)()
@@ -168,13 +199,17 @@ func c14configs(e common.Env) []c14cfg {
 		{Name: "x0,y0 buffered; recv x1 || recv y1 || Send", Pre: []string{"r:T:7:x0", "r:T:8:y0"}, Threads: [][]string{{"r:T:7:x1"}, {"r:T:8:y1"}, {"s:T"}}, Limit: L, Samples: S},
 		{Name: "recv T || Send T || recv U || Send U", Threads: [][]string{{"r:T:7:t1"}, {"s:T"}, {"r:U:7:u1"}, {"s:U"}}, Limit: L, Samples: S},
 		{Name: "t0 buffered; recv t1,u1 || Send T,Send U", Pre: []string{"r:T:7:t0"}, Threads: [][]string{{"r:T:7:t1", "r:U:7:u1"}, {"s:T", "s:U"}}, Limit: L, Samples: S},
+		// the epoch clock ticks while a receive / a first Send holds the box lock and a Send on another topic is about to collect
+		{Name: "clock: recv T,Send T || Send U || tick", Ticks: true, Pre: []string{"s:Z", "k"}, Threads: [][]string{{"r:T:7:m1", "s:T"}, {"s:U"}, {"k"}}, Limit: L, Samples: S},
+		{Name: "clock: Send T,recv T || Send U || tick", Ticks: true, Pre: []string{"s:Z", "k"}, Threads: [][]string{{"s:T", "r:T:7:m1"}, {"s:U"}, {"k"}}, Limit: L, Samples: S},
+		{Name: "clock: m0 buffered; recv T,Send T || Send U,Send V || tick,tick", Ticks: true, Pre: []string{"s:Z", "k", "r:T:7:m0"}, Threads: [][]string{{"r:T:7:m1", "s:T"}, {"s:U", "s:V"}, {"k", "k"}}, Limit: L, Samples: S},
 		{Name: "m0,m1 buffered; recv m2,m3 || Send || recv y1", Pre: []string{"r:T:7:m0", "r:T:7:m1"}, Threads: [][]string{{"r:T:7:m2", "r:T:7:m3"}, {"s:T"}, {"r:T:8:y1"}}, Limit: e.Pick(2000, 400000), Samples: S},
 	}
 }
 
 func unitC14ctl(e common.Env, p *common.Part) {
 	p.Rule = "real msg.Box under the controlled scheduler: every controlled thread parks at each verif yield point (lock boundaries and shared-state accesses inside critical sections) and at operation boundaries, one runs at a time, threads waiting for a lock are recognised by their goroutine wait state; configurations of concurrent receive and Send calls; distinct key = (configuration, schedule as the sequence of granted threads and yield points); non-trivial when the schedule granted at least two different threads before the first one finished its first operation (a receive overlapped a Send); stateless DFS up to the limit, then PRNG schedules"
-	p.Assumptions = append(p.Assumptions, "interleavings at the granularity of the verif yield points of msg/msgbox.go; expiry disabled (GCExpire 10h) so that no message may legitimately vanish; the sender stays within the documented limits")
+	p.Assumptions = append(p.Assumptions, "interleavings at the granularity of the verif yield points of msg/msgbox.go; expiry out of reach (GCExpire 10 h on a real clock, or 2^40 epochs on the hand-driven clock of the 'clock:' configurations, where a tick is a schedulable operation) so that no message may legitimately vanish; the sender stays within the documented limits")
 	cfgs := c14configs(e)
 	for i, cfg := range cfgs {
 		if !e.Mine(i) || p.ViolationCount() >= 3 {
